@@ -443,9 +443,97 @@ def file_worker(job, r):
     pool.check_exit(None, r, sess.ex)
 
 
+def nearest_part(job, r):
+    """KSI_extendSignature: the library itself downloads the publications file, picks the first publication not earlier than the signature and
+    extends to it. The result must be the reference extension to exactly that publication; without an authentic publications file, without a
+    suitable publication or with a deviating extender there is no result, and the source stays as it was."""
+    from checks import c04
+    from checks.c18 import MAGIC, hdr, cert_rec, pub_rec, sig_rec
+    _, exe, env, work, seed, n, w = job
+    rng = random.Random(seed)
+    state = {}
+    srv = c04.Extender(rng, w.cal)
+
+    def responder(sess, kind, info):
+        if kind == 'http':
+            if 'publications' in info.get('url', ''):
+                return 'resp 200 0 %s -' % kexec.hx(state['pf'])
+            code, cc, body = srv.reply(info['body'])
+            return 'resp %d %d %s -' % (code, cc, kexec.hx(body))
+        return 'eof'
+    sess = net.Session(exe, env, work, responder)
+    c = sess.cmd
+    T0 = c04.T0
+    for i in range(n):
+        variant = rng.choice(['trusted', 'trusted', 'trusted', 'trusted', 'trusted', 'trusted', 'trusted', 'signed-by-foreign-ca', 'no-anchor', 'wrong-constraint', 'tampered-after-signing', 'only-earlier-publications'])
+        b = rng.choice(['honest', 'honest', 'honest', 'honest', 'honest', 'honest', 'other-root', 'altered-right-link', 'other-input-hash', 'bad-mac', 'status-error', 'wrong-id'])
+        s = c04.make_sig(rng, w, rng.choice(['auth:ok', 'cal', 'nocal']), work, T0)
+        srv.root, srv.behaviour, srv.effective = s.root, b, b
+        later = sorted(rng.sample(w.pub_times, rng.randint(1, len(w.pub_times)))) if variant != 'only-earlier-publications' else []
+        earlier = [T0 - 86400 * k for k in rng.sample(range(1, 40), rng.randint(0 if later else 1, 2))]
+        F = [(pt, w.cal.chain(T0, pt, s.root).root()) for pt in later] + [(pt, gen.rnd_imprint(rng, 1)) for pt in earlier]
+        recs = [hdr()] + [cert_rec(x) for x in (w.cert_ok, w.cert_ok2)] + [pub_rec(t, h) for t, h in sorted(F)]
+        body = MAGIC + b''.join(x.enc() for x in recs)
+        pf = body + sig_rec((w.pf_foreign if variant == 'signed-by-foreign-ca' else w.pf_signer).pkcs7_detached(body, work)).enc()
+        if variant == 'tampered-after-signing':
+            k = len(MAGIC) + 12
+            pf = pf[:k] + bytes([pf[k] ^ 1]) + pf[k + 1:]
+        state['pf'] = pf
+        c('ctx 0')
+        c('clock %d' % 1700000000)
+        c('truststore 0 ' + ' '.join([] if variant == 'no-anchor' else [w.ca.pem]))
+        c('constraints 0 %s=%s' % (c04.EMAIL_OID, 'nobody@guardtime.test' if variant == 'wrong-constraint' else 'publications@guardtime.test'))
+        c('set_puburl 0 http://pub.example/publications.bin')
+        c('set_ext 0 ksi+http://ext.example/x anon anon')
+        raw = s.enc().hex()
+        if c('sigparse 0 0 empty ' + raw).rc != 0:
+            r.viol('parse-empty:honest-rejected', 'reference-built signature rejected', raw)
+            c('ctxfree 0')
+            continue
+        nasked = len(srv.asked)
+        q = c('extend 0 0 1 api=nearest')
+        after = c('sigser 0')
+        trusted = variant in ('trusted', 'only-earlier-publications')
+        must_fail = not trusted or not later or (b != 'honest' and getattr(srv, 'effective', b) != 'honest')
+        replay = 'KSI_extendSignature: publications file %s, publications %s, extender %s, source=%s' % (variant, sorted(t for t, h in F), b, raw)
+        r.observe(('nearest', variant, b, len(later), len(earlier), q.rc == 0))
+        r.count('nearest_%s' % ('extended' if q.rc == 0 else 'refused'))
+        if after.get('hex') != raw:
+            r.viol('extend:nearest:source-modified', 'serialization of the source signature changed (rc=%#x)' % q.rc, replay)
+        if not trusted and len(srv.asked) > nasked:
+            r.count('nearest_extender_asked_before_file_was_refused')
+        if must_fail:
+            if q.rc == 0:
+                r.viol('extend:nearest:%s:%s:success' % (variant if not trusted or not later else 'trusted', b if trusted and later else 'any'), 'KSI_extendSignature reported success', replay + ' result=' + q.get('sig', ''))
+        elif q.rc != 0:
+            r.viol('extend:nearest:honest-refused', 'authentic publications file, suitable publication, honest extender: rc=%#x' % q.rc, replay)
+        else:
+            target = later[0]
+            chain = w.cal.chain(T0, target, s.root)
+            if len(srv.asked) == nasked or srv.asked[-1] != (T0, target):
+                r.viol('extend:nearest:wrong-publication-chosen', 'the extender was asked for %s, the first publication not earlier than the signature is %d' % (srv.asked[nasked:] or 'nothing', target), replay)
+            gt = R.expand(R.read_tlv(bytes.fromhex(q['sig']))[0])
+            st = R.expand(R.read_tlv(bytes.fromhex(raw))[0])
+            pr = gt.kids(R.TAG_PUBREC)
+            cc = gt.kids(R.TAG_CAL)
+            if [k.enc() for k in gt.kids(R.TAG_AGGR)] != [k.enc() for k in st.kids(R.TAG_AGGR)] or gt.kids(R.TAG_CALAUTH):
+                r.viol('extend:nearest:aggregation-chains-changed', 'aggregation part of the result differs from the source or an authentication record was kept', replay + ' result=' + q['sig'])
+            elif len(cc) != 1 or cc[0].enc() != chain.tlv().enc():
+                r.viol('extend:nearest:calendar-chain-not-the-reply', 'calendar chain of the result is not the reference chain to %d' % target, replay + ' result=' + q['sig'])
+            elif len(pr) != 1 or R.parse_pub_data(R.expand(pr[0]).one(0x10)) != (target, chain.root()):
+                r.viol('extend:nearest:publication-record-wrong', 'result does not carry the publication of %d' % target, replay + ' result=' + q['sig'])
+            else:
+                r.count('nearest_extensions_checked')
+        c('sigfree 0'); c('sigfree 1')
+        c('ctxfree 0')
+    pool.check_exit(None, r, sess.ex)
+
+
 def dispatch(job, r):
     if job[0] == 'file':
         return file_worker(job, r)
+    if job[0] == 'nearest':
+        return nearest_part(job, r)
     return run_worker(job, r)
 
 
@@ -456,9 +544,12 @@ def run(ctx):
                 '{head, later, equal, earlier, publication record, publication record with wrong hash} x extender behaviours (2 honest, %d deviations) x transports '
                 '{http, tcp, async tcp, async http} x PDU versions x HMAC algorithms; distinct = (transport, version, behaviour, target, anchor, outcome)' % len(DEVIATIONS))
     ctx.assumptions = ['simulated transports', 'reference calendar vlib/refserver.py Calendar (right links depend only on history)', 'refksi evaluator']
-    pool.run(ctx, dispatch, [(exe, ctx.env(), ctx.work, ctx.seed * 1000 + i, n) for i in range(32)] + [('file', exe, ctx.env(), ctx.work, ctx.seed * 1000 + 900 + i, 320 if ctx.tier == 'quick' else 1500) for i in range(2)])
+    from checks import c04
+    w = c04.World(os.path.join(ctx.work, 'pki'))
+    pool.run(ctx, dispatch, [(exe, ctx.env(), ctx.work, ctx.seed * 1000 + i, n) for i in range(32)] + [('file', exe, ctx.env(), ctx.work, ctx.seed * 1000 + 900 + i, 320 if ctx.tier == 'quick' else 1500) for i in range(2)]
+             + [('nearest', exe, ctx.env(), ctx.work, ctx.seed * 1000 + 950 + i, 60 if ctx.tier == 'quick' else 500, w) for i in range(4)])
     c = ctx.counters
     if not ctx.violations and not ctx.known_printed:
-        ctx.require(c.get('extended_signatures_checked', 0) >= 100 and c.get('file_extender_honest_accepted', 0) >= 500, 'honest extensions checked')
+        ctx.require(c.get('extended_signatures_checked', 0) >= 100 and c.get('file_extender_honest_accepted', 0) >= 500 and c.get('nearest_extensions_checked', 0) >= 20 and c.get('nearest_refused', 0) >= 20, 'honest extensions checked')
         miss = [d for d in DEVIATIONS if not c.get('outcome_%s_error' % d)]
         ctx.require(not miss, 'every deviation exercised: missing %s' % miss)
